@@ -677,7 +677,7 @@ def gen(rng, tier):
                              [["data", one], ["data", 10], ["data", one - 10], ["lose"], ["app", 0, "f"], ["app", 1, "f"]],
                              [["data", one], ["data", one], ["tp"], ["app", 0, "f"], ["tr"], ["lose"], ["app", 1, "w"], ["app", 1, "f"]],
                              [["data", one], ["tp"], ["data", one], ["tr"], ["data", 5], ["lose"], ["app", 0, "f"]]):
-                    cases.append({"eager": eager, "sync": False, "reqs": (reqs + [{"pad": 0, "close": False, "script": "nf"}])[:2],
+                    cases.append({"eager": eager, "sync": False, "reqs": (reqs + [{"pad": 0, "close": False, "script": "nf"}] * 2)[:3],
                                   "ops": hist})
     for _ in range(1200 if tier == "quick" else 15000):
         cases.append(_random_case(rng))
@@ -711,9 +711,9 @@ def corpus():
          "ops": [["data", 200], ["lose"]]},
         # the send buffer fills and drains while a long-poll request is handled; then the client goes away
         {"eager": 16384, "sync": False, "reqs": [{"pad": 0, "close": False, "script": "n"}],
-         "ops": [["data", 37], ["tp"], ["tr"], ["lose"], ["app", 0, "w"]]},
+         "ops": [["data", 28], ["tp"], ["tr"], ["lose"], ["app", 0, "w"]]},
         # the client sends and closes while the idle channel was asked to wait; both arrive when the transport resumes
-        {"eager": 16384, "sync": False, "reqs": two, "ops": [["tp"], ["data", 74], ["lose"], ["tr"], ["app", 0, "n"]]},
+        {"eager": 16384, "sync": False, "reqs": two, "ops": [["tp"], ["data", 56], ["lose"], ["tr"], ["app", 0, "n"]]},
         # idle timeout while half of the second request is buffered, then forceAbortClient; timeout disabled while handling
         # the connection is lost while the second request's body is half received; its Deferred was taken in gotLength
         {"eager": 16384, "sync": False, "tmo": None, "abt": None,
